@@ -55,6 +55,9 @@ CLAIMED = {
  "C20": dict(technique="interprocedural must-lockset analysis (mutex-field abstraction, defer-aware, synchronous-callback inheritance) against a frozen guarded-by table with per-function exemptions justified by publication-ordering rules; atomic-only access; type classification of synchroniser state",
              text="Sound static decision that every access to the guarded fields of Scheme, TBLS, TPS, Box and storedMessages holds its lock in sufficient mode, that backend Init/SetShareData happen before the handler is published, that epoch counters are accessed only atomically and that the synchroniser's shared state is sync.Map/channels. Memory outside these types is not decided.",
              design="§4 C20"),
+ "C10": dict(technique="reachability closure from the network entry points (static calls, closures, VTA call graph, consumers of stored state), enumeration of panic-capable constructs using the Go compiler's prove pass as bounds oracle, discharge by dominating length guards with calling contexts and length arithmetic, structural checks (sync.Map value types, map/field initialisation, allocation bounds) and a frozen reason table",
+             text="Sound static decision that every panic-capable construct (unproven bounds checks, unchecked assertions, explicit panics, nil map stores, nil func/interface field calls, wire-sized allocations, divisions, exit calls, dispatcher-path sends) in the closure reachable from the network is discharged by a dominating guard or a recorded reason. Hangs in general, dependency internals and CPU exhaustion are not decided.",
+             design="§4 C10"),
 }
 NOT_APPLICABLE = {
  "C08": "completeness of blind/sign/unblind/PoK is an algebraic identity over runtime group elements; no clause is visible in the shape of the code (DESIGN.md §4 C08)",
